@@ -75,6 +75,14 @@ chk("C16", "model_checking",
     "Shared families + fee families (6 tx types x gas {min-1,min,min+1,large} x price {0,p-1,p,p+1,2^255}, up to 3 per block, proposer of every block from {V0,V1,none}, governance change of gasPrice and minTrxGas in mid-history): admission conditions as necessary conditions, exact charge (gas x price native, gasUsed x price contract, gasUsed <= limit), proposer credited exactly the block's fees; fee-touched balances equal the model's.",
     'Reference model (mc/refmodel) is result-conditioned: it asserts only the necessary conditions the properties state and computes exact effects / block rules; validator tie-breaks and acceptance heuristics (stake limiter, EVM gas schedule) are not predicted. Known findings are matched by (kind, site) fingerprints.',
     "deviation-bounded exhaustive history exploration on the real app, step-by-step comparison with a result-conditioned reference model", "§5 C16")
+chk("C04", "model_checking",
+    "ALL delivery sequences with repetition (length <= 3 quick / 4 thorough) over 14 CONCRETE signed transactions of two senders (native and contract, incl. native transactions addressed to a contract account), each cut into blocks at every possible place: duplicates inside a block, replays in later blocks, out-of-order delivery, interleaving. Oracle: success => nonce equal (model), nonce +1 / unchanged compared at every height for both nonce-bumping paths, each signed transaction (by hash) succeeds at most once.",
+    "Reference model is result-conditioned; bounded by the menu and the sequence length.",
+    "exhaustive enumeration of delivery sequences of concrete signed transactions on the real app, reference model + at-most-once oracle", "§5 C04")
+chk("C19", "model_checking",
+    "For every history of a family (dense in 2 variants, small-stake; every single appended deviation; one restart at every boundary) EVERY query of the universe (7 paths x keys x heights 0..latest+1) is asked at EVERY gap between consensus calls and at the end: answers for a committed height never change (also mid-block, after later blocks, after a restart), agree with the complete state dump of that height, height 0 == latest, latest+1 is an error, and the queried replica's consensus responses equal the quiet replica's.",
+    "Answers compared after JSON key-order canonicalisation (tendermint's JSON encoder emits map fields in random order - not a different answer); state dumps are validated against the reference model by the other checks; stakes/voting_power is outside the statement's list.",
+    "exhaustive (path x key x height x moment) query enumeration over deviation-bounded histories, immutability + state agreement + twin oracle", "§5 C19")
 
 ALL = ["C%02d" % i for i in range(1, 21)]
 PENDING_REASON = "check under construction in this round (model-checking harness not yet registered); see DESIGN.md §5"
